@@ -415,7 +415,11 @@ def process_group(args):
                 if steps < nl:
                     res['undecided'] = '%s: %d loop contracts but only %d loop_invariant_step obligations' % (g['name'], nl, steps)
                     return res
-        failed = [x for x in results if x['status'] != 'SUCCESS']
+        failed = [x for x in results if x['status'] not in ('SUCCESS', 'UNKNOWN')]
+        unknown = [x for x in results if x['status'] == 'UNKNOWN']
+        if unknown and not failed:
+            res['undecided'] = '%s: %d obligations left UNKNOWN by cbmc' % (g['name'], len(unknown))
+            return res
         # vacuity of the enforced contract: ensures(false) must FAIL
         if enforce and not failed and not g.get('skip_vacuity'):
             cf2, _, _ = build_group_c(g, L0, allc, scratch, vacuity=True)
@@ -644,6 +648,8 @@ def write_evidence(pid, tier, seed, spec, groups, results, wall, violations, kno
         k['obligations'] += r['obligations']
         k['discharged'] += r['discharged']
     level = getattr(spec, 'LEVEL', 'proof')
+    if level == 'proof' and any(r['kind'] == 'bounded' for r in results):
+        level = 'model_checking'   # a bounded stand-in is never counted as proved
     if level == 'proof' and (dis != tot or undecided):
         level = 'other'
     samples = []
